@@ -868,6 +868,7 @@ fn noise_positions(g: &Group, noisy: &[u8]) -> Option<Vec<usize>> {
 
 #[derive(PartialEq)]
 enum C06Spec {
+    ContainersOnly,
     Identity,
     SelectSize,
     FilterNotNull,
@@ -877,9 +878,13 @@ enum C06Spec {
 }
 
 fn c06_spec(s: &Spec) -> C06Spec {
-    let plain = s.split.is_none() && s.sets.is_empty() && !s.ooa && s.skip == 0 && s.style.is_none() && s.jstyle.is_none() && s.rowsep.is_none();
+    let plain = s.split.is_none() && s.sets.is_empty() && s.skip == 0 && s.style.is_none() && s.jstyle.is_none() && s.rowsep.is_none();
     if !plain {
         return C06Spec::Other;
+    }
+    if s.ooa {
+        let size_only = s.selects.is_empty() || (s.selects.len() == 1 && s.selects[0] == "(size .)=n");
+        return if size_only && s.filter.is_none() && !s.unique && s.take.is_none() && s.sorts.is_empty() && s.group.is_none() { C06Spec::ContainersOnly } else { C06Spec::Other };
     }
     if !s.sorts.is_empty() || s.group.is_some() {
         return C06Spec::Buffered;
@@ -952,6 +957,7 @@ fn c06(g: &Group, obs: &[Obs]) -> Option<String> {
         match kind {
             C06Spec::Identity | C06Spec::SelectSize => Some(k),
             C06Spec::FilterNotNull => Some(values[..k.min(values.len())].iter().filter(|v| **v != V::Null).count()),
+            C06Spec::ContainersOnly => Some(values[..k.min(values.len())].iter().filter(|v| matches!(v, V::Arr(_) | V::Obj(_))).count()),
             C06Spec::UniqueTake(t) => {
                 let mut seen: Vec<&V> = vec![];
                 for v in &values[..k.min(values.len())] {
